@@ -8,7 +8,11 @@ use crate::gal::*;
 use crate::lib_stage;
 use crate::libgen;
 use crate::PropModule;
+use liwe::graph::Graph;
+use liwe::model::config::MarkdownOptions;
+use liwe::model::Key;
 use pulldown_cmark::{Event, Parser, Tag, TagEnd};
+use std::panic::{catch_unwind, AssertUnwindSafe};
 use serde_json::Value;
 
 pub fn module() -> PropModule {
@@ -48,9 +52,38 @@ pub fn said(text: &str) -> String {
     out
 }
 
+/// per note: its formatted text in the freshly imported library, and again after every OTHER note of
+/// the library was re-submitted with the text it already has (`update_key`, what a didSave of an
+/// unchanged buffer does); `None` where a step panicked
+fn settled(v: &Value, notes: &[(String, String)]) -> Vec<String> {
+    let ext = v["ext"].as_str().unwrap_or("");
+    let options = MarkdownOptions { refs_extension: ext.to_string() };
+    let imported = catch_unwind(AssertUnwindSafe(|| Graph::import(&lib_stage::state_of(notes), options.clone())));
+    notes
+        .iter()
+        .map(|(name, _)| {
+            let key = Key::name(name);
+            let pair = imported.as_ref().ok().and_then(|g| {
+                catch_unwind(AssertUnwindSafe(|| {
+                    let before = g.to_markdown(&key);
+                    let mut g2 = g.clone();
+                    for (other, text) in notes {
+                        if other != name {
+                            g2.update_key(Key::name(other), text);
+                        }
+                    }
+                    (before, g2.to_markdown(&key))
+                }))
+                .ok()
+            });
+            gpair(&gstr(name), &gopt(pair.map(|(a, b)| gpair(&gstr(&a), &gstr(&b)))))
+        })
+        .collect()
+}
+
 pub fn execute(v: &Value) -> String {
     let lc = lib_stage::execute(v);
     let notes = lib_stage::notes_of(v);
     let said: Vec<String> = notes.iter().map(|(name, text)| gpair(&gstr(name), &gstr(&said(text)))).collect();
-    format!("({}, {})", lc, glist(&said))
+    format!("(({}, {}), {})", lc, glist(&said), glist(&settled(v, &notes)))
 }
